@@ -522,6 +522,9 @@ class C19(Engine):
 			c([{'op': 'flaky', 'f': 'f_flaky', 'n': 1}, {'op': 'rebind', 'h': 0, 's': 'S1', 'f': 'f_flaky'}, R(0, 'S1'), R(0, 'S1'), R(0, 'S1')])
 			c([{'op': 'flaky', 'f': 'f_flaky2', 'n': 1}, {'op': 'bind', 'h': 0, 's': 'S2', 'f': 'f_flaky2'}, R(0, 'S2'), R(0, 'S0'), R(0, 'S2')])
 			c([{'op': 'bind', 'h': 0, 's': 'G0[int]', 'f': 'f_g0'}, R(0, 'G0'), R(0, 'G0[int]'), {'op': 'can', 'h': 0, 's': 'G0'}, {'op': 'bind', 'h': 0, 's': 'G0', 'f': 'f_g0'}, {'op': 'unbind', 'h': 0, 's': 'G0[int]'}, {'op': 'can', 'h': 0, 's': 'G0'}])
+			# parameters with default values are parameters like any other: filled when bound, otherwise they must be passed, never defaulted silently
+			c([I('f_s3_opt'), {'op': 'unbind', 'h': 0, 's': 'S1'}, I('f_s3_opt'), I('f_s3_opt', '@S1'), I('f_s4_opt', 1, 'a'), I('f_s4_opt', 1), {'op': 'rebind', 'h': 0, 's': 'S3', 'f': 'f_s3_opt'}, R(0, 'S3'),
+				{'op': 'bind', 'h': 0, 's': 'S1', 'f': 'f_s1'}, {'op': 'rebind', 'h': 0, 's': 'S3', 'f': 'f_s3_opt'}, R(0, 'S3')])
 			for broken in BROKEN:
 				# materialisation of a by-name definition fails: the definition stays, the error repeats, clone / combine carry it, rebind repairs it
 				c([R(0, 'S1'), R(0, 'S1'), {'op': 'can', 'h': 0, 's': 'S1'}, I('f_s3'), {'op': 'clone', 'h': 0, 'into': 1}, R(1, 'S1'), {'op': 'new', 'into': 2, 'defs': {'S0': {'f': 'f_s0'}}},
